@@ -87,7 +87,7 @@ def _sim(seed: int, num: int, sw: Dict[str, bool]) -> List[Dict[str, Any]]:
     import tempfile, shutil
     cfgs = [{"workers": w, "max_fails": mf} for w in (1, 2, 3) for mf in (-1, 1, 3)]
     text = "INIT SimInit\nNEXT SimNext\n" + const_text(sw, 12, 2, cfgs="Cfgs = {}") + "  SimDepth = 0\nINVARIANT Dump\nCHECK_DEADLOCK FALSE\n"
-    scratch = tempfile.mkdtemp(prefix="verif-pmsim-")
+    scratch = tlc.scratch_dir("pmsim")
     try:
         path = os.path.join(scratch, "cfgs.json")
         json.dump(cfgs, open(path, "w"))
